@@ -13,4 +13,4 @@ fi
 if [ "$TIER" = replay ]; then
   exec bin/tvc -replay "${3:?report path}"
 fi
-exec bin/tvc -property "$ID" -tier "$TIER" -repo "$REPO" -verif "$OUT"
+exec bin/tvc -property "$ID" -tier "$TIER" -repo "$REPO" -verif "$OUT" -findings "$PWD/known_findings.txt"
